@@ -194,6 +194,7 @@ pub fn profile(prop: &str) -> Profile {
         }
         "C06" => {
             p.prop = "C06";
+            p.w[W_CLEAR] = 2;
             p.backends = vec![Backend::File];
             p.w[W_SETMIN] = 2;
             p.w[W_DISCARD] = 3;
